@@ -18,7 +18,20 @@ import (
 	"go.dedis.ch/kyber/v4/xof/blake2xb"
 )
 
-const unknownIndex = 1000
+// unkIdx is an index that is not in the given group: the first one past the group (index == n for contiguous
+// indices) or a far one, depending on the variant
+func (w *world) unkIdx(nodes []pdkg.Node) uint32 {
+	if w.variant%2 == 1 {
+		return 1000
+	}
+	var m uint32
+	for _, n := range nodes {
+		if n.Index >= m {
+			m = n.Index + 1
+		}
+	}
+	return m
+}
 
 type party struct {
 	p, oi, ni int // abstract party, old index, new index (-1: not in that group)
@@ -282,11 +295,14 @@ func (w *world) craftDeal(b BundleJ) *pdkg.DealBundle {
 	if b.Unk {
 		ct := make([]byte, 80)
 		_, _ = w.rnd.Read(ct)
-		deals = append(deals, pdkg.Deal{ShareIndex: unknownIndex, EncryptedShare: ct})
+		deals = append(deals, pdkg.Deal{ShareIndex: w.unkIdx(w.new), EncryptedShare: ct})
 	}
 	db := &pdkg.DealBundle{DealerIndex: w.oldIdx(f), Deals: deals, Public: pub, SessionID: append([]byte(nil), w.nonce...)}
 	if !b.Sid {
 		db.SessionID = w.badNonce()
+	}
+	if !b.authOK() {
+		db.DealerIndex = w.unkIdx(w.old)
 	}
 	db.Signature = w.sign(f, db)
 	return db
@@ -309,17 +325,23 @@ func (w *world) craftResp(b BundleJ) *pdkg.ResponseBundle {
 	var rs []pdkg.Response
 	for _, e := range b.Rs {
 		st := pdkg.Success
-		if e.V == "C" {
+		switch e.V {
+		case "C":
 			st = pdkg.Complaint
+		case "X":
+			st = pdkg.Status(2 + w.variant%3) // a value outside the enum
 		}
 		rs = append(rs, pdkg.Response{DealerIndex: w.oldIdx(e.K), Status: st})
 	}
 	if b.Unk {
-		rs = append(rs, pdkg.Response{DealerIndex: unknownIndex, Status: pdkg.Complaint})
+		rs = append(rs, pdkg.Response{DealerIndex: w.unkIdx(w.old), Status: pdkg.Complaint})
 	}
 	rb := &pdkg.ResponseBundle{ShareIndex: w.newIdx(f), Responses: rs, SessionID: append([]byte(nil), w.nonce...)}
 	if !b.Sid {
 		rb.SessionID = w.badNonce()
+	}
+	if !b.authOK() {
+		rb.ShareIndex = w.unkIdx(w.new)
 	}
 	rb.Signature = w.sign(f, rb)
 	return rb
@@ -349,11 +371,14 @@ func (w *world) craftJust(b BundleJ, dealt []BundleJ) *pdkg.JustificationBundle 
 		js = append(js, pdkg.Justification{ShareIndex: w.newIdx(e.K), Share: v})
 	}
 	if b.Unk {
-		js = append(js, pdkg.Justification{ShareIndex: unknownIndex, Share: w.suite.Scalar().Pick(w.rnd)})
+		js = append(js, pdkg.Justification{ShareIndex: w.unkIdx(w.new), Share: w.suite.Scalar().Pick(w.rnd)})
 	}
 	jb := &pdkg.JustificationBundle{DealerIndex: w.oldIdx(f), Justifications: js, SessionID: append([]byte(nil), w.nonce...)}
 	if !b.Sid {
 		jb.SessionID = w.badNonce()
+	}
+	if !b.authOK() {
+		jb.DealerIndex = w.unkIdx(w.old)
 	}
 	jb.Signature = w.sign(f, jb)
 	return jb
